@@ -47,50 +47,39 @@ fn scenario(n: usize) {
     let (tx, rx) = flume::unbounded::<ActorMessage>();
     let dht = AsyncDht(Dht(tx));
     let r = {
-        let mut fut = Box::pin(dht.get_mutable_most_recent(&[0; 32], None));
+        // the future lives on the stack and is polled exactly once: every item is queued and the
+        // sender is gone before the poll, so the fold must run to completion in this poll
+        let fut = dht.get_mutable_most_recent(&[0; 32], None);
+        let mut fut = std::pin::pin!(fut);
         #[cfg(verif_replay)]
         {
-            // real flume: the actor double runs before the first poll (the message is queued)
+            // real flume: the actor double runs before the poll (the message is queued)
             if let Ok(m) = rx.try_recv() {
                 serve(m)
             }
         }
         let waker = Waker::noop();
         let mut cx = Context::from_waker(&waker);
-        let mut out = None;
-        let mut polls = 0;
-        while polls < 2 {
-            if let Poll::Ready(v) = Pin::new(&mut fut).poll(&mut cx) {
-                out = Some(v);
-                break;
-            }
-            #[cfg(verif_replay)]
-            {
-                if let Ok(m) = rx.try_recv() {
-                    serve(m)
-                }
-            }
-            polls += 1;
-        }
-        match out {
-            Some(v) => v,
-            None => {
+        match fut.as_mut().poll(&mut cx) {
+            Poll::Ready(v) => v,
+            Poll::Pending => {
                 crate::verif_env::cut();
                 None
             }
         }
     };
+    // reference: maximum seq; among those the greatest value
+    let mut best = 0usize;
+    let mut i = 1;
+    while i < 3 {
+        if i < n && (seqs[i] > seqs[best] || (seqs[i] == seqs[best] && vals[i] > vals[best])) {
+            best = i;
+        }
+        i += 1;
+    }
     if n == 0 {
         assert!(r.is_none(), "C16 None only if nothing was delivered");
     } else {
-        let mut best = 0usize;
-        let mut i = 1;
-        while i < 3 {
-            if i < n && (seqs[i] > seqs[best] || (seqs[i] == seqs[best] && vals[i] > vals[best])) {
-                best = i;
-            }
-            i += 1;
-        }
         match &r {
             Some(item) => {
                 assert!(item.seq() == seqs[best], "C16 most recent item has the maximum seq delivered");
@@ -98,10 +87,12 @@ fn scenario(n: usize) {
             }
             None => assert!(false, "C16 an item was delivered so one is returned"),
         }
-        kani::cover!(n < 2 || (best == n - 1 && seqs[n - 1] > seqs[0]));
-        kani::cover!(n < 2 || (best == 0 && seqs[0] > seqs[n - 1]));
-        kani::cover!(n < 2 || (seqs[0] == seqs[n - 1] && vals[0] != vals[n - 1]));
     }
+    // (for n < 2 the order witnesses are inapplicable: trivially true there)
+    kani::cover!(n < 2 || (best == n - 1 && seqs[n - 1] > seqs[0]));
+    kani::cover!(n < 2 || (best == 0 && seqs[0] > seqs[n - 1]));
+    kani::cover!(n < 2 || (seqs[0] == seqs[n - 1] && vals[0] != vals[n - 1]));
+    kani::cover!(n != 1 || seqs[0] < 0);
     assert!(!crate::verif_env::cut_reached(), "CUT the future was not ready although every item was queued");
     std::mem::forget(r);
     std::mem::forget(dht);
